@@ -811,6 +811,57 @@ def run_q2d_high(case, seed, R):
 
 
 # ---------------------------------------------------------------------------------------------
+# the package's public weight / norm helpers
+
+def run_weight(case, seed, R):
+    """polynomials.jacobi.weight against (1-x)^alpha (1+x)^beta, and orthogonality of the library's polynomials under the LIBRARY's weight."""
+    import importlib
+    jm = importlib.import_module('prysm.polynomials.jacobi')
+    a, b, N = case['alpha'], case['beta'], case['N']
+    cls = 'a=b' if a == b else 'a!=b'
+    sig = f'jacobi.weight[{cls}]'
+    P = [v for v in pts('I', seed) if abs(v) < 1] + ([1.0] if a >= 0 else []) + ([-1.0] if b >= 0 else [])
+    x = np.array(P)
+    want = np.array([float(1 - rp.frac(v)) ** a * float(1 + rp.frac(v)) ** b for v in P])
+    tol = 32 * EPS64 * (1 + abs(a) + abs(b)) * np.abs(want)      # measured worst 0.71 eps (1+|a|+|b|) |w| over seeds 0..3
+    got = R.call(jm.weight, a, b, x, sig=sig + ':exception')
+    R.expect_close(got, want, tol, sig, f'weight({a},{b},x) on a 1-D array vs (1-x)^alpha (1+x)^beta')
+    for i, v in enumerate(P):
+        got = R.call(jm.weight, a, b, v, sig=sig + ':scalar:exception')
+        R.expect_close(got, want[i], tol[i], sig + ':scalar', f'weight({a},{b},{v})')
+    impl = lambda n, xx: pp.jacobi(n, a, b, xx)   # noqa
+    h = jacobi_h(N, a, b)
+    # (i) Gauss-Jacobi nodes; quadrature weight w_k * W_library(x_k) / W_textbook(x_k)
+    xq, wq = sps.roots_jacobi(N + 1, a, b)
+    Wl = _arr(R, R.call(jm.weight, a, b, xq, sig=sig + ':exception'), xq.shape, sig + ':output', 'weight at the Gauss-Jacobi nodes')
+    if Wl is not None:
+        gram(R, f'jacobi-under-library-weight[{cls}]', N, impl, xq, wq * Wl / ((1 - xq) ** a * (1 + xq) ** b), h)
+    # (ii) integer parameters: the integrand is a polynomial -- plain Gauss-Legendre of ample degree, nothing of the weight assumed
+    if float(a).is_integer() and float(b).is_integer():
+        xl, wl = sps.roots_legendre(N + 2 + int(a + b) // 2 + 1)
+        Wl = _arr(R, R.call(jm.weight, a, b, xl, sig=sig + ':exception'), xl.shape, sig + ':output', 'weight at the Gauss-Legendre nodes')
+        if Wl is not None:
+            gram(R, f'jacobi-under-library-weight[{cls},gauss-legendre]', N, impl, xl, wl * Wl, h)
+    R.nontrivial()
+    R.outcome('weight')
+
+
+def run_znorm(case, seed, R):
+    N = case['N']
+    for n in range(N + 1):
+        for m in range(-n, n + 1, 2):
+            got = R.call(pp.zernike_norm, n, m, sig='zernike_norm:exception')
+            want = math.sqrt(rp.zernike_norm2(n, m))
+            R.expect_close(got, want, 4 * EPS64 * want, f'zernike_norm:{"m=0" if m == 0 else "m!=0"}', f'zernike_norm({n},{m}) vs sqrt(2(n+1)/(1+delta_m0))')
+    R.nontrivial()
+    R.outcome('zernike_norm')
+
+
+def run_helpers(case, seed, R):
+    (run_znorm if case.get('helper') == 'zernike_norm' else run_weight)(case, seed, R)
+
+
+# ---------------------------------------------------------------------------------------------
 # history: cold == warm, bit for bit
 
 XH = np.array(_FIXED['I'][:8])
@@ -1077,6 +1128,10 @@ def plan(tier, seed):
                   'and separable axis vectors; oracle x^m y^n exact', reset=reset_poly_caches),
         ScopeUnit('hopkins', hop_cases, run_hopkins,
                   'every (a,b,c) in [-4..4] x [0..4]^2, all input forms; oracle cos(a t) | sin(|a| t) times r^b H^c exact', reset=reset_poly_caches),
+        ScopeUnit('weight_helpers', [{'alpha': a, 'beta': b, 'N': min(N, 20)} for a, b in pairs] + [{'helper': 'zernike_norm', 'N': NZ}], run_helpers,
+                  f'the public weight / norm helpers of the package: polynomials.jacobi.weight for every (alpha,beta) in {AB}^2 pointwise against (1-x)^alpha (1+x)^beta (array and scalars, end '
+                  'points where finite), orthogonality of the library\'s Jacobi polynomials under the LIBRARY\'s weight (Gauss-Jacobi nodes x weight ratio; for integer parameters also plain '
+                  'Gauss-Legendre of exact degree) against diag(h_n); zernike_norm for every (n,m) against sqrt(2(n+1)/(1+delta_m0))', reset=reset_poly_caches),
         ScopeUnit('jacobi_near_cancel', near_cases, run_jacobi,
                   'value-specific parameter alphabet: (alpha,beta) whose sum is a rounding-sized non-zero number (0.1+0.2,-0.3), (1-0.9,-0.1), (-0.3,0.7-0.4), one-ulp '
                   'neighbours of (0.5,-0.5), alpha+beta = +-1e-15, the same around alpha+beta = -1, and tiny parameters; orders 0..6, all input forms, against the exact-rational '
